@@ -15,7 +15,7 @@ Require Import Arith Lia List Bool ZArith QArith Qcanon.
 From TK Require Import Mat_Sums Mat_Core Mat_Qc Mat_EigSelect EigSelect Mat_EigSelect_Tie
                        Proj_Model Proj_Spec Proj_Proof
                        Pca_Model Pca_Spec Pca_Proof Pca_Proof_Qc Spectral_KyFan Pca_Proof_Opt Spectral_Randomized Pca_Proof_Select Pca_Proof_Sign Pca_Proof_Recon
-                       Spectral_GramDual Pca_Proof_Spectrum Proj_Proof_Range Pca_Proof_Scale
+                       Spectral_GramDual Pca_Proof_Spectrum Proj_Proof_Range Pca_Proof_Scale Spectral_Randomized_Scale
                        PcaEmbed Pca_Tie.
 Import ListNotations.
 Local Open Scope nat_scope.
@@ -652,3 +652,33 @@ Theorem C06_scale_uncorrelated_retained :
     retained D d (fun i j => (c * C i j)%F) Q = (c * retained D d C Q)%F.
 Proof. exact @scale_uncorrelated_retained_all. Qed.
 Print Assumptions C06_scale_uncorrelated_retained.
+
+(* 13. (wave 2) the orthonormalisation loop of the randomized front-end and scale.  The plain modified
+       Gram-Schmidt loop (9c) is scale INVARIANT: on c*Y with norms c*s_i it yields the same finished columns
+       (and c times the untouched ones), any c <> 0, non-vanishing norms ... *)
+Theorem C06_gram_schmidt_scale_invariant :
+  forall (F : Type) (Fo : FieldOps F) (Ff : IsField F) (n : nat) (Y : mat F) (k : nat) (s : nat -> F) (c : F),
+    c <> 0%F -> (forall i, i < k -> s i <> 0%F) ->
+    (forall t b, b < k ->
+       gram_schmidt n (fun t b => (c * Y t b)%F) k (fun i => (c * s i)%F) t b = gram_schmidt n Y k s t b) /\
+    (forall t b, k <= b ->
+       gram_schmidt n (fun t b => (c * Y t b)%F) k (fun i => (c * s i)%F) t b = (c * gram_schmidt n Y k s t b)%F).
+Proof. exact @gram_schmidt_scale_invariant. Qed.
+Print Assumptions C06_gram_schmidt_scale_invariant.
+
+Example C06_gram_schmidt_scale_nonvacuous : exrs_c <> 0%F /\ (forall i, i < 2 -> exrs_s i <> 0%F).
+Proof. split; [exact (proj1 gram_schmidt_cutoff_not_scale_invariant)|exact (proj1 (proj2 gram_schmidt_cutoff_not_scale_invariant))]. Qed.
+
+(* ... whereas the loop AS SHIPPED, with its ABSOLUTE cut-off `norm < 1e-4`, is not (regression theorem for the
+   scale side of known finding F36): the full-rank orthonormal 2x2 input is returned unchanged, the same input
+   scaled by 1e-5 (norms scaled accordingly) has every column zeroed, and the plain loop still returns the
+   orthonormal columns.  The check therefore exercises the randomized solver at scales >= 1 only. *)
+Theorem C06_randomized_cutoff_scale_refuted :
+  exrs_c <> Q2Qc 0 /\ (forall i, i < 2 -> exrs_s i <> Q2Qc 0) /\
+  (forall t b, t < 2 -> b < 2 -> gram_schmidt_thr below_1e4 2 exrs_Y 2 exrs_s t b = exrs_Y t b) /\
+  (forall t b, t < 2 -> b < 2 ->
+     gram_schmidt_thr below_1e4 2 (fun t b => (exrs_c * exrs_Y t b)%Qc) 2 (fun i => (exrs_c * exrs_s i)%Qc) t b = Q2Qc 0) /\
+  (forall t b, t < 2 -> b < 2 ->
+     gram_schmidt 2 (fun t b => (exrs_c * exrs_Y t b)%Qc) 2 (fun i => (exrs_c * exrs_s i)%Qc) t b = exrs_Y t b).
+Proof. exact gram_schmidt_cutoff_not_scale_invariant. Qed.
+Print Assumptions C06_randomized_cutoff_scale_refuted.
